@@ -293,7 +293,7 @@ def run_case(ctx, case):
                 for e in els:
                     v = d["c_%s" % e]
                     nchk += 1
-                    tol = 1e-9 * max(hi[e], 1e-12) + 1e-15
+                    tol = 1e-8 * max(hi[e], 1e-12) + 1e-15      # concentrations are per kg of water and the water mass itself moves by 1e-9 relative through speciation
                     if v < lo[e] - tol or v > hi[e] + tol:
                         findings.append(("C11/hull/%s" % kind, "%s: %s in cell %d after shift %d is %.12g mol/kgw, outside [%.12g, %.12g] spanned by the initial, stagnant and boundary solutions (%s)" % (
                             case["id"], e, c, st, v, lo[e], hi[e], info)))
@@ -313,7 +313,7 @@ def run_case(ctx, case):
             pool_ = list(prevcol.values()) + [init[c] for c in outside] + [cur[c] for c in cur if c not in mobile]
             for e in els:
                 lo_, hi_ = min(d["c_%s" % e] for d in pool_), max(d["c_%s" % e] for d in pool_)
-                tol = 1e-9 * max(hi_, 1e-12) + 1e-15
+                tol = 1e-8 * max(hi_, 1e-12) + 1e-15
                 for c in mobile:
                     v = cur[c]["c_%s" % e]
                     nchk += 1
